@@ -224,6 +224,19 @@ func (c *Ctx) ruleDefrag() {
 					problems = append(problems, "the error recorded is not verifyImplode's verdict")
 				}
 			}
+			// ... and it is recorded on every path that verified - a nil verdict included, which is
+			// what clears an error left by an earlier operation ("Err() is nil afterwards")
+			for _, rs := range fa.rets {
+				if rs.st.dead {
+					continue
+				}
+				if _, didV := rs.st.cep[vers[0]]; !didV {
+					continue
+				}
+				if _, didS := rs.st.cep[sets[0]]; !didS {
+					problems = append(problems, "a path verifies the compaction and returns without recording the verdict (a nil verdict must overwrite an older error)")
+				}
+			}
 			// truncation only under a nil verdict, and only after the compaction
 			for _, hs := range c.hdrStores() {
 				if hs.fn != fn {
